@@ -164,6 +164,8 @@ fn full_levels(m: &Model, thorough: bool, forms1: &[&str], forms_k2: &[&str], fo
             lvl("let/k2/dev1", sweep::skeletons(m, &["let"], &[2], &[Size::Short]), &forms_k2[..1], &[])
         },
     ];
+    // patterns and parameters two productions deep (named items holding '_', nested destructuring)
+    v.push(lvl("pattern,param/k2/dev0", sweep::skeletons(m, &["pattern", "param"], &[2], &[Size::Short]), &[], &[]));
     // decorated spines: p1 . (paren | neg | not | field | call0 | paren2 | pos)^{1,2} . literal leaf
     v.push(lvl(
         "let,arg,codeblock/decorated spines/dev0",
@@ -172,18 +174,7 @@ fn full_levels(m: &Model, thorough: bool, forms1: &[&str], forms_k2: &[&str], fo
         &[],
     ));
     // a directive and an ordinary comment together, around the argument kinds that are not printed verbatim
-    v.push(lvl(
-        "arg/named,spread,dict/directive+comment",
-        sweep::skeletons(m, if thorough { &["arg", "let"] } else { &["arg"] }, &[2], &[Size::Short])
-            .into_iter()
-            .filter(|sk| {
-                let n = m.prods[sk.spine[0].0].name;
-                matches!(n, "named" | "spread" | "clos1") || (thorough && matches!(n, "dict1" | "dict_keyed" | "dict_spread" | "let_fn"))
-            })
-            .collect(),
-        &["off_bc", "bc"],
-        &["off_bc", "bc"],
-    ));
+    v.push(directive_args_level(m, thorough, true));
     // chains written over several, over-indented lines (two line-break deviations)
     v.push(lvl(
         "codeblock,let,arg/chains/two over-indented line breaks",
@@ -261,6 +252,23 @@ fn literal_wrappers(m: &Model, ks: &[usize]) -> Vec<(String, String)> {
     res.sort();
     res.dedup_by(|a, b| a.1 == b.1);
     res
+}
+
+/// A directive (and optionally an ordinary comment) around the argument kinds that are formatted
+/// although a directive precedes them (named, spread, closure arguments; dict items).
+fn directive_args_level(m: &Model, thorough: bool, with_comment: bool) -> Level {
+    lvl(
+        if with_comment { "arg/named,spread,dict/directive+comment" } else { "arg/named,spread,dict/directive" },
+        sweep::skeletons(m, if thorough { &["arg", "let"] } else { &["arg"] }, &[2], &[Size::Short])
+            .into_iter()
+            .filter(|sk| {
+                let n = m.prods[sk.spine[0].0].name;
+                matches!(n, "named" | "spread" | "clos1") || (thorough && matches!(n, "dict1" | "dict_keyed" | "dict_spread" | "let_fn"))
+            })
+            .collect(),
+        if with_comment { &["off_bc", "bc"] } else { &["off_bc", "off_lc"] },
+        if with_comment { &["off_bc", "bc"] } else { &[] },
+    )
 }
 
 /// Inline markup sequences in every markup-bearing context, including block elements whose last
@@ -416,6 +424,7 @@ fn plan_for(id: &str, thorough: bool) -> Option<Plan> {
                     } else {
                         lvl("let/k2/1 comment", sweep::skeletons(&m, &["let"], &[2], &[Size::Short]), &["bc", "lc"], &[])
                     },
+                    directive_args_level(&m, thorough, true),
                 ];
                 if thorough {
                     v.push(lvl("main/k2/1 comment", sweep::skeletons(&m, &MAIN_CTX, &[2], &[Size::Short]), &["bc", "lc", "nl_lc", "bc_ml", "bc_sp"], &[]));
@@ -456,6 +465,8 @@ fn plan_for(id: &str, thorough: bool) -> Option<Plan> {
                         lvl("markup ctx/k2/dev<=1 (line feed, none, line comment)", sweep::skeletons(&m, &mk, &[2], &[Size::Short]), &["nl", "none", "lc"], &[]),
                     ]
                 };
+                v.push(lvl("markup ctx/k<=1/every other line terminator", sweep::skeletons(&m, &mk, &[1], &[Size::Short]), model::FORMS_NEWLINES, &[]));
+                v.push(directive_args_level(&m, thorough, false));
                 if thorough {
                     v.push(lvl("markup ctx/k<=2/all forms", sweep::skeletons(&m, &mk, &[1, 2], &[Size::Short, Size::Medium]), model::FORMS_ALL, &[]));
                     v.push(lvl("markup ctx/k3/dev0", sweep::skeletons(&m, &["doc", "content_ml", "item"], &[3], &[Size::Short]), &[], &[]));
@@ -482,13 +493,17 @@ fn plan_for(id: &str, thorough: bool) -> Option<Plan> {
                         lvl("math ctx/k2/dev<=1 (line feed, none, block comment)", sweep::skeletons(&m, &mk, &[2], &[Size::Short]), &["nl", "none", "bc"], &[]),
                     ]
                 };
+                v.push(lvl("math ctx/k<=1/every other line terminator", sweep::skeletons(&m, &mk, &[1], &[Size::Short]), model::FORMS_NEWLINES, &[]));
                 if thorough {
                     v.push(lvl("math ctx/k<=2/all forms", sweep::skeletons(&m, &mk, &[1, 2], &[Size::Short, Size::Medium]), model::FORMS_ALL, &[]));
                     v.push(lvl("math ctx/k3/dev0", sweep::skeletons(&m, &["math_i", "math_b"], &[3], &[Size::Short]), &[], &[]));
                 }
                 v
             },
-            extra: vec![ExtraLevel { name: format!("math sequences <= {}", if thorough { 3 } else { 2 }), inputs: families::math(if thorough { 3 } else { 2 }) }],
+            extra: vec![
+                ExtraLevel { name: format!("math sequences <= {}", if thorough { 3 } else { 2 }), inputs: families::math(if thorough { 3 } else { 2 }) },
+                ExtraLevel { name: "whitespace spellings between math items (mixed newline styles, long runs)".into(), inputs: families::ws_spellings() },
+            ],
             policy: std_policy(sparse),
             assumptions: vec![two_uses, wrapper],
             model: m,
